@@ -53,34 +53,44 @@ fn check_one(out: &[OsString], at: usize, i: u8, whole: bool) -> usize {
     }
 }
 
-#[kani::proof]
-#[kani::unwind(5)]
-fn split_one_value() {
-    let i: u8 = kani::any();
-    kani::assume(i < 8);
-    let dont: bool = kani::any();
-    let trailing_idx = any_trailing();
+fn one(i: u8, dont: bool, trailing_idx: Option<usize>) {
     let out = frag_split(vec![OsString::from(lit(i))], ",", dont, trailing_idx);
     let whole = !lit(i).contains(',') || (dont && trailing_idx == Some(0));
     let n = check_one(&out, 0, i, whole);
     assert!(out.len() == n);
-    kani::cover!(!whole && out.len() == 3);
-    kani::cover!(whole && lit(i).contains(','));
 }
-
-#[kani::proof]
-#[kani::unwind(5)]
-fn split_two_values() {
-    let i: u8 = kani::any();
-    let j: u8 = kani::any();
-    kani::assume(i < 8 && j < 8);
-    let dont: bool = kani::any();
-    let trailing_idx = any_trailing();
+fn two(i: u8, j: u8, dont: bool, trailing_idx: Option<usize>) {
     let out = frag_split(vec![OsString::from(lit(i)), OsString::from(lit(j))], ",", dont, trailing_idx);
     let whole_i = !lit(i).contains(',') || (dont && trailing_idx == Some(0));
     let whole_j = !lit(j).contains(',') || (dont && trailing_idx == Some(1));
     let n = check_one(&out, 0, i, whole_i);
     let n = check_one(&out, n, j, whole_j);
     assert!(out.len() == n);
-    kani::cover!(!whole_i && whole_j && lit(j).contains(','));
+}
+
+// every one of the eight strings, concretely (the strings are constants: no symbolic pointers), under every setting
+#[kani::proof]
+#[kani::unwind(9)]
+fn split_one_value() {
+    let dont: bool = kani::any();
+    let trailing_idx = any_trailing();
+    let mut i = 0u8;
+    while i < 8 {
+        one(i, dont, trailing_idx);
+        i += 1;
+    }
+    kani::cover!(dont && trailing_idx == Some(0));
+}
+
+// pairs: a value with the delimiter next to one of each kind
+#[kani::proof]
+#[kani::unwind(9)]
+fn split_two_values() {
+    let dont: bool = kani::any();
+    let trailing_idx = any_trailing();
+    two(3, 6, dont, trailing_idx);
+    two(6, 1, dont, trailing_idx);
+    two(1, 5, dont, trailing_idx);
+    two(2, 4, dont, trailing_idx);
+    kani::cover!(dont && trailing_idx == Some(1));
 }
